@@ -10,7 +10,7 @@ From Coq Require Import NArith ZArith List Bool.
 From ST Require Import Base.Outcome Base.Units Utf.Spec Utf.Tokens Utf.Model Utf.ProofsC01 Utf.ProofsC03 Utf.ApiCoverage.
 From ST Require Utf.LeafBridge Gen.Leaf.
 From ST Require Utf.LoopBridge Utf.LoopBridgeMeasure Utf.LoopBridgeConvert32 Utf.LoopBridgeConvert16To8.
-From ST Require Utf.SourceFit.
+From ST Require Utf.SourceFit Utf.SourceFit2.
 Import ListNotations.
 Local Open Scope N_scope.
 
@@ -193,3 +193,31 @@ Theorem utf32_to_utf16_source_passes_fit : forall l m fuel, all_lt 4294967296 l 
     (length ws <= n)%nat /\ (e = CSuccess -> length ws = n).
 Proof. exact ST.Utf.SourceFit.utf32_to_utf16_source_passes_fit. Qed.
 Print Assumptions utf32_to_utf16_source_passes_fit.
+
+(* the decoding conversions, same statement: UTF-8 -> UTF-32, UTF-8 -> UTF-16, UTF-16 -> UTF-32 *)
+Theorem decoding_source_passes_fit : forall l m fuel,
+  (4 * Z.of_nat (length l) < 18446744073709551616)%Z -> (length l < fuel)%nat ->
+  (all_lt 256 l = true ->
+     (exists e ws n,
+        ST.Gen.Leaf.src_utf32_convert_from_utf8 fuel (ST.Utf.LoopBridge.arr8s l) (Z.of_nat (length l)) (ST.Utf.LoopBridgeConvert32.mode_code m)
+          = Some (Z.of_N (cerr_code e), ws) /\
+        ST.Gen.Leaf.src_utf32_measure_from_utf8 fuel (ST.Utf.LoopBridge.arr8s l) (Z.of_nat (length l)) = Some (Z.of_nat n) /\
+        (length ws <= n)%nat /\ (e = CSuccess -> length ws = n)) /\
+     (exists e ws n,
+        ST.Gen.Leaf.src_utf16_convert_from_utf8 fuel (ST.Utf.LoopBridge.arr8s l) (Z.of_nat (length l)) (ST.Utf.LoopBridgeConvert32.mode_code m)
+          = Some (Z.of_N (cerr_code e), ws) /\
+        ST.Gen.Leaf.src_utf16_measure_from_utf8 fuel (ST.Utf.LoopBridge.arr8s l) (Z.of_nat (length l)) = Some (Z.of_nat n) /\
+        (length ws <= n)%nat /\ (e = CSuccess -> length ws = n))) /\
+  (all_lt 65536 l = true ->
+     exists e ws n,
+        ST.Gen.Leaf.src_utf32_convert_from_utf16 fuel (ST.Utf.LoopBridge.arr32 l) (Z.of_nat (length l)) (ST.Utf.LoopBridgeConvert32.mode_code m)
+          = Some (Z.of_N (cerr_code e), ws) /\
+        ST.Gen.Leaf.src_utf32_measure_from_utf16 fuel (ST.Utf.LoopBridge.arr32 l) (Z.of_nat (length l)) = Some (Z.of_nat n) /\
+        (length ws <= n)%nat /\ (e = CSuccess -> length ws = n)).
+Proof.
+  exact (fun l m fuel Hb Hf => conj
+    (fun A => conj (ST.Utf.SourceFit2.utf8_to_utf32_source_passes_fit l m fuel A Hb Hf)
+                   (ST.Utf.SourceFit2.utf8_to_utf16_source_passes_fit l m fuel A Hb Hf))
+    (fun A => ST.Utf.SourceFit2.utf16_to_utf32_source_passes_fit l m fuel A Hb Hf)).
+Qed.
+Print Assumptions decoding_source_passes_fit.
